@@ -14,9 +14,11 @@ Local Open Scope num_scope.
 
 (* SP ns = ProductSpace(rn(n1), ..., rn(nk)); its elements are modelled FLAT (the
    concatenation of the parts), so every operator is a map list -> list *)
-Inductive space := SF | SV (n : nat) | SP (ns : list nat).
+(* SC n = cn(n); a complex vector is modelled as  real parts ++ imaginary parts  (only the
+   real-linear structure of complex spaces is used: real scalars, sums, Re/Im/modulus) *)
+Inductive space := SF | SV (n : nat) | SP (ns : list nat) | SC (n : nat).
 Definition sdim (s : space) : nat :=
-  match s with SF => 1%nat | SV n => n | SP ns => list_sum ns end.
+  match s with SF => 1%nat | SV n => n | SP ns => list_sum ns | SC n => (n + n)%nat end.
 Fixpoint nats_eqb (a b : list nat) : bool :=
   match a, b with
   | [], [] => true
@@ -25,11 +27,13 @@ Fixpoint nats_eqb (a b : list nat) : bool :=
   end.
 Definition space_eqb (a b : space) : bool :=
   match a, b with
-  | SF, SF => true | SV n, SV m => Nat.eqb n m | SP a', SP b' => nats_eqb a' b'
+  | SF, SF => true | SV n, SV m | SC n, SC m => Nat.eqb n m | SP a', SP b' => nats_eqb a' b'
   | _, _ => false
   end.
 Definition is_SV (s : space) : bool := match s with SV _ => true | _ => false end.
 Definition is_field (s : space) : bool := match s with SF => true | _ => false end.
+Definition is_complex (s : space) : bool := match s with SC _ => true | _ => false end.
+Definition real_space (s : space) : space := match s with SC n => SV n | _ => s end.
 
 (* primitives the carrier class does not provide *)
 Record prims (T : Type) := {
@@ -117,6 +121,16 @@ Fixpoint pwdiv (n k : nat) (f nrm : list T) : list T :=
   | S k' => vmap2 divnz (firstn n f) nrm ++ pwdiv n k' (skipn n f) nrm
   end.
 
+(* ---------- real and imaginary parts (x.real is x and x.imag is 0 on a real space) ---------- *)
+Definition re_of (s : space) (x : list T) : list T := match s with SC n => firstn n x | _ => x end.
+Definition im_of (s : space) (x : list T) : list T :=
+  match s with SC n => skipn n x | _ => vconst (sdim s) nzero end.
+Definition cmod2 (s : space) (x : list T) : list T :=
+  vadd (vmul (re_of s x) (re_of s x)) (vmul (im_of s x) (im_of s x)).
+(* x.real * y.real + x.imag * y.imag *)
+Definition redot (s : space) (x y : list T) : list T :=
+  vadd (vmul (re_of s x) (re_of s y)) (vmul (im_of s x) (im_of s y)).
+
 (* ---------- leaves ---------- *)
 Inductive leaf :=
 | LScale (s : space) (c : T)               (* ScalingOperator / IdentityOperator *)
@@ -132,7 +146,10 @@ Inductive leaf :=
 | LAbs (k : nat)                           (* user-defined nonlinear operator no. k *)
 | LAbsD (k : nat) (x : list T)             (* the linear operator its derivative(x) returns *)
 | LPwNorm (n : nat) (p : Z) (w : list T)   (* PointwiseNorm(rn(n)^k, exponent p in {1,2}, weights w), k = #w *)
-| LPwInner (n : nat) (w vf : list T).      (* PointwiseInner(rn(n)^k, vf, weights w) *)
+| LPwInner (n : nat) (w vf : list T)       (* PointwiseInner(rn(n)^k, vf, weights w) *)
+| LRe (s : space) | LIm (s : space)        (* RealPart(s), ImagPart(s), s real or complex *)
+| LCMod (s : space) | LCMod2 (s : space)   (* ComplexModulus(s), ComplexModulusSquared(s) *)
+| LCModD (sq : bool) (s : space) (x : list T).  (* the operators their derivative(x) returns *)
 
 Definition ldom (l : leaf) : space :=
   match l with
@@ -142,6 +159,7 @@ Definition ldom (l : leaf) : space :=
   | LUf _ n | LNorm n => SV n
   | LAbs k | LAbsD k _ => adom P k
   | LPwNorm n _ w | LPwInner n w _ => SP (repeat n (length w))
+  | LRe s | LIm s | LCMod s | LCMod2 s | LCModD _ s _ => s
   end.
 Definition lran (l : leaf) : space :=
   match l with
@@ -152,20 +170,25 @@ Definition lran (l : leaf) : space :=
   | LUf _ n => SV n
   | LAbs k | LAbsD k _ => aran P k
   | LPwNorm n _ _ | LPwInner n _ _ => SV n
+  | LRe s | LIm s | LCMod s | LCMod2 s | LCModD _ s _ => real_space s
   end.
 Definition all_zero (c : list T) : bool := forallb (fun a => a =? nzero) c.
 (* the `linear` flag handed to Operator.__init__ *)
 Definition llin (l : leaf) : bool :=
   match l with
-  | LScale _ _ | LMul _ _ | LMat _ _ | LInner _ | LZero _ _ | LAbsD _ _ | LPwInner _ _ _ => true
+  | LScale _ _ | LMul _ _ | LMat _ _ | LInner _ | LZero _ _ | LAbsD _ _ | LPwInner _ _ _
+  | LRe _ | LIm _ | LCModD _ _ _ => true
   | LConst _ _ c => all_zero c              (* linear = (constant.norm() == 0) *)
   | LPow _ p => (p =? 1)%Z                  (* linear = (exponent == 1) *)
   | LUf f _ => ufunc_linear f
-  | LNorm _ | LDist _ | LAbs _ | LPwNorm _ _ _ => false
+  | LNorm _ | LDist _ | LAbs _ | LPwNorm _ _ _ | LCMod _ | LCMod2 _ => false
   end.
 Definition lwt (l : leaf) : bool :=
   match l with
-  | LMul s v => Nat.eqb (length v) (sdim s)
+  | LMul s v => Nat.eqb (length v) (sdim s) && negb (is_complex s)
+  | LPow s _ => negb (is_complex s)
+  | LRe s | LIm s | LCMod s | LCMod2 s => negb (is_field s)
+  | LCModD _ s x => negb (is_field s) && Nat.eqb (length x) (sdim s)
   | LMat n rows => forallb (fun r => Nat.eqb (length r) n) rows
   | LConst _ s' c => Nat.eqb (length c) (sdim s')
   | LAbsD k x => Nat.eqb (length x) (sdim (adom P k))
@@ -189,6 +212,13 @@ Definition leval (l : leaf) (x : list T) : list T :=
   | LAbsD k x0 => ader P k x0 x
   | LPwNorm n p w => if (p =? 1)%Z then pwnorm1 n w x else pwnorm2 n w x
   | LPwInner n w vf => pwinner n w vf x
+  | LRe s => re_of s x
+  | LIm s => im_of s x
+  | LCMod2 s => cmod2 s x
+  | LCMod s => map (rt P) (cmod2 s x)
+  | LCModD sq s x0 =>
+      (* out = x.real*y.real; out += x.imag*y.imag; then  out *= 2  resp.  out /= op(x) *)
+      if sq then vscal (of_Z 2) (redot s x0 x) else vdiv (redot s x0 x) (map (rt P) (cmod2 s x0))
   end.
 
 (* ---------- expression classes ---------- *)
@@ -246,11 +276,14 @@ Fixpoint is_lin (e : oexpr) : bool :=
 Fixpoint wt (e : oexpr) : bool :=
   match e with
   | OLeaf l => lwt l
-  | OSum a b | OPProd a b => wt a && wt b && space_eqb (dom a) (dom b) && space_eqb (ran a) (ran b)
-  | OVecSum a v | OLVec a v => wt a && negb (is_field (ran a)) && Nat.eqb (length v) (sdim (ran a))
+  | OSum a b => wt a && wt b && space_eqb (dom a) (dom b) && space_eqb (ran a) (ran b)
+  (* entry-wise products of complex elements are not modelled *)
+  | OPProd a b => wt a && wt b && space_eqb (dom a) (dom b) && space_eqb (ran a) (ran b) && negb (is_complex (ran a))
+  | OVecSum a v => wt a && negb (is_field (ran a)) && Nat.eqb (length v) (sdim (ran a))
+  | OLVec a v => wt a && negb (is_field (ran a)) && Nat.eqb (length v) (sdim (ran a)) && negb (is_complex (ran a))
   | OComp a b => wt a && wt b && space_eqb (ran b) (dom a)
   | OLScal a _ | ORScal a _ => wt a
-  | ORVec a v => wt a && negb (is_field (dom a)) && Nat.eqb (length v) (sdim (dom a))
+  | ORVec a v => wt a && negb (is_field (dom a)) && Nat.eqb (length v) (sdim (dom a)) && negb (is_complex (dom a))
   | OFLVec a _ => wt a && space_eqb (ran a) SF
   (* blocks: parts are tensor spaces rn(n) (no fields, no nested products) *)
   | OBroadcast ops =>
@@ -323,12 +356,14 @@ Definition lderiv (l : leaf) (x : list T) : oexpr :=
   | LPwNorm n p w =>
       (* inner_vf = f * |f|^(p-2) / N^(p-1):  sign(f) for p = 1,  f / N (where N != 0) for p = 2 *)
       OLeaf (LPwInner n w (if (p =? 1)%Z then map nsign x else pwdiv n (length w) x (pwnorm2 n w x)))
+  | LCMod s => OLeaf (LCModD false s x)
+  | LCMod2 s => OLeaf (LCModD true s x)
   | _ => OLeaf l                      (* Operator.derivative: linear => self *)
   end.
 (* false = the call raises (OpNotImplementedError / ValueError) *)
 Definition lderiv_ok (l : leaf) (x : list T) : bool :=
   match l with
-  | LConst _ _ _ | LPow _ _ | LAbs _ | LPwNorm _ _ _ => true
+  | LConst _ _ _ | LPow _ _ | LAbs _ | LPwNorm _ _ _ | LCMod _ | LCMod2 _ => true
   | LUf f _ => match ufunc_deriv f with Some _ => true | None => ufunc_linear f end
   | LNorm _ => negb (rt P (dot x x) =? nzero)
   | LDist v => negb (rt P (normsq (vsub x v)) =? nzero)
@@ -390,4 +425,5 @@ Arguments ODiagonal {T}. Arguments OPSO {T}.
 Arguments LScale {T}. Arguments LMul {T}. Arguments LMat {T}. Arguments LInner {T}.
 Arguments LZero {T}. Arguments LConst {T}. Arguments LPow {T}. Arguments LUf {T}.
 Arguments LNorm {T}. Arguments LDist {T}. Arguments LAbs {T}. Arguments LAbsD {T}.
-Arguments LPwNorm {T}. Arguments LPwInner {T}.
+Arguments LPwNorm {T}. Arguments LPwInner {T}. Arguments LRe {T}. Arguments LIm {T}.
+Arguments LCMod {T}. Arguments LCMod2 {T}. Arguments LCModD {T}.
